@@ -989,6 +989,8 @@ def deep_copy(interp, v, memo=None, mark_fresh=True):
             return v
         o = Obj(v.cls, True)
         o.tag = v.tag
+        o.__dict__['origin'] = v.__dict__.get('origin', v)     # provenance: which object this is a copy of
+        o.__dict__['copied_fields'] = None
         memo[id(v)] = o
         if hasattr(v, 'sym_deepcopy_into'):
             v.sym_deepcopy_into(interp, o, memo)
